@@ -10,7 +10,7 @@
     truthful headers ([good_client]; established by [SpvClient::new] on a validated header of the
     caller's own chain and an empty cache, and preserved by every poll). *)
 Require Import LdkV.Prim.U64 LdkV.Model.BlockSync LdkV.Model.BlockSyncSpec.
-Require Import LdkV.Proofs.C20Tree LdkV.Proofs.C20 LdkV.Proofs.C20Poll LdkV.Proofs.C20Wf LdkV.Proofs.C20Init.
+Require Import LdkV.Proofs.C20Tree LdkV.Proofs.C20 LdkV.Proofs.C20Poll LdkV.Proofs.C20Wf LdkV.Proofs.C20Init LdkV.Proofs.C20Fan.
 Open Scope Z_scope.
 Local Open Scope list_scope.
 
@@ -118,6 +118,13 @@ Theorem C20_init_common_tip : forall T src ls n r logs n',
   | Err _ => True
   end.
 Proof. exact init_common_tip. Qed.
+
+(** Composed listeners (the [(T, U)] tuple combinator, nested, behind [Deref] wrappers): the composite
+    delivers every notification to every component in order, so EACH leaf receives exactly the log the
+    composite received - and therefore satisfies every theorem above on its own. *)
+Theorem C20_fanout_each_leaf : forall sh log i,
+  (i < nleaves sh)%nat -> leaf_log i (fan_trace sh log) = log.
+Proof. exact fanout_each_leaf. Qed.
 
 (** * Non-vacuity: a concrete universe with a fork, an equal-work tie and a more-work shorter fork *)
 Definition ex_nd p h b c := {| n_prev := p; n_height := h; n_bwork := b; n_cwork := c; n_pow := true; n_wit := true |}.
